@@ -139,6 +139,22 @@ def gen_prefix_cases(lang, rnd, titles, toks, ncases, prop="C03"):
         if not tok or not tok["words"]:
             continue
         c, sid, rid = small_store_case(prop, "prefix", lang, rnd, titles, t)
+        if rnd.random() < 0.35:
+            # the user was already typing before the record arrived: the same prefixes are asked for first on the
+            # store without the record, then the record is added (still no more records than the limit)
+            add_op = [op for op in c.ops if op.get("op") == "add" and op.get("id") == rid][0]
+            c.ops.remove(add_op)
+            for w in words_of(tok):
+                for n in range(1, len(w) + 1):
+                    c.search(sid, w[:n])
+            # ... and the very keystroke typed last is typed again right after the record arrived
+            wl = words_of(tok)
+            wi0 = rnd.randrange(len(wl))
+            p0 = wl[wi0][:rnd.randint(1, len(wl[wi0]))]
+            c.search(sid, p0, rep=1)
+            add_op["id"] = rid = 900
+            c.ops.append(add_op)
+            c.search(sid, p0, expect=dict(prop="C03", kind="prefix", rid=rid, widx=wi0 + 1))
         for wi, w in enumerate(words_of(tok)):
             for n in range(1, len(w) + 1):
                 q = w[:n]
@@ -265,6 +281,39 @@ def gen_exact_prefix_cases(lang, rnd, titles, toks, ncases):
     return cases, words
 
 
+def gen_span_cases(lang, rnd, titles, toks, ncases):
+    """C05: queries whose match may be shorter than the record word (finished proper prefixes of long words,
+    inflected forms) and queries that are near misses of a title word's beginning (first letters swapped or
+    replaced), in stores within and beyond the limit"""
+    cases = []
+    letters = script_letters(lang)
+    for _ in range(ncases):
+        n = rnd.randint(1, 6)
+        recs = [rnd.choice(titles) for _ in range(n)]
+        c = Case("C05", "spans", lang=lang)
+        sid = c.new_store(lang, limit=rnd.choice([10, 10, n, 1, 2]))
+        for i, t in enumerate(recs):
+            c.add(sid, 100 + i, t, rnd.randint(0, 100))
+        qs = []
+        for t in recs:
+            tok = toks.get((lang, t))
+            for w in (words_of(tok) if tok else []):
+                w = text(w)
+                if len(w) >= 6:
+                    for cut in (1, 2, 3):
+                        qs.append(w[:len(w) - cut] + rnd.choice([" ", ",", "!"]))
+                    qs.append(w[:len(w) - 2] + rnd.choice(letters) + " ")
+                if len(w) >= 3:
+                    qs.append(w[1] + w[0] + w[2:rnd.randint(3, min(5, len(w)))])
+                    qs.append(rnd.choice(letters) + w[1:rnd.randint(3, min(5, len(w)))])
+                    qs.append(w[0] + rnd.choice(letters) + w[2:3])
+        rnd.shuffle(qs)
+        for q in qs[:24]:
+            c.search(sid, q)
+        cases.append(c)
+    return cases
+
+
 def random_query(lang, rnd, titles, toks):
     """a query related (or not) to the titles: prefix, typo, several words, noise"""
     t = rnd.choice(titles)
@@ -340,18 +389,36 @@ def gen_histories(prop, lang, rnd, titles, toks, ncases, length=14, adversarial=
     freshly built store"""
     cases = []
     seps = ["", " ", "-,", "\u0000", "  ", "...", "\t", " ", "!?"]
-    for _ in range(ncases):
+    for case_no in range(ncases):
         c = Case(prop, "history", lang=lang)
         sid = c.new_store(lang, markers=(SENT_L, SENT_R) if rnd.random() < 0.7 else None)
         held = []
         nid = 1
+        # three regimes: default limit; a small limit that the store soon exceeds; many records sharing a word
+        # under a limit of 1-2 (more than 10 x limit candidates, so the index cap and the chunked selection matter)
+        regime = case_no % 3
+        small_ratings = prop == "C12" or regime == 1 or rnd.random() < 0.3
+        shared = None
+        if regime >= 1:
+            c.op(op="limit", sid=sid, limit=rnd.choice([1, 2, 3] if regime == 1 else [1, 1, 2]))
+        if regime == 2:
+            tok0 = toks.get((lang, rnd.choice(titles)))
+            ws0 = words_of(tok0) if tok0 else []
+            shared = text(rnd.choice(ws0)) if ws0 else "metal"
+            for _k in range(rnd.randint(11, 24)):
+                t = shared + " " + rnd.choice(titles)
+                c.add(sid, nid, t, rnd.randint(0, 3) if small_ratings else rnd.randint(0, 2 ** 31 - 1))
+                held.append((t, nid))
+                nid += 1
         for _step in range(length):
             r = rnd.random()
             if r < 0.32 or not held:
                 t = rnd.choice(ADVERSARIAL) if adversarial and rnd.random() < 0.5 else rnd.choice(titles)
+                if shared and rnd.random() < 0.7:
+                    t = shared + " " + t
                 if prop == "C12" and held and rnd.random() < 0.3:
                     t = rnd.choice(held)[0]  # duplicate title
-                rating = rnd.randint(0, 3) if (prop == "C12" or rnd.random() < 0.3) else rnd.randint(0, 2 ** 31 - 1)
+                rating = rnd.randint(0, 3) if small_ratings else rnd.randint(0, 2 ** 31 - 1)
                 c.add(sid, nid, t, rating)
                 held.append((t, nid))
                 nid += 1
@@ -369,6 +436,8 @@ def gen_histories(prop, lang, rnd, titles, toks, ncases, length=14, adversarial=
                     q = rnd.choice(seps)
                 elif adversarial and rnd.random() < 0.4:
                     q = rnd.choice(ADVERSARIAL)
+                elif shared and rnd.random() < 0.6:
+                    q = rnd.choice([shared, shared[:2], shared[:3], shared + " "])
                 else:
                     q = random_query(lang, rnd, [h[0] for h in held], toks)
                 c.search(sid, q, want=["qtok", "fresh"], repeat=2)
@@ -384,6 +453,12 @@ def gen_marker_cases(lang, rnd, titles, toks, ncases):
         n = rnd.randint(1, 6)
         recs = [rnd.choice(titles) if rnd.random() < 0.8 else rnd.choice(ADVERSARIAL) for _ in range(n)]
         recs = [t for t in recs if chr(0xE000) not in t and chr(0xE001) not in t]
+        # some titles are stored with some of their accented letters decomposed
+        decomp = {b[0]: a for a, b in LANGTAB[lang]["compose"]}
+        for i, t in enumerate(recs):
+            if decomp and rnd.random() < 0.5:
+                pr = rnd.choice([0.3, 0.6, 1.0])
+                recs[i] = "".join(text(decomp[ord(ch)]) if ord(ch) in decomp and rnd.random() < pr else ch for ch in t)
         if not recs:
             continue
         c = Case("C02", "markers", lang=lang)
@@ -593,6 +668,18 @@ def gen_variant_cases(lang, rnd, titles, toks, ncases):
                 base = base[:rnd.randint(1, len(base))]
             if rnd.random() < 0.3:
                 base = base.upper() if len(base.upper()) == len(base) else base
+            if rnd.random() < 0.5:
+                # a mistyped base query: the answer then depends on the cost (class) of single characters
+                bw = base.split(" ")
+                k = rnd.randrange(len(bw))
+                if 3 <= len(bw[k]) <= 7:
+                    letters = script_letters(lang)
+                    vowels = [ch for ch in letters if ch in "aeiouyаеиоуыэюя"] or letters
+                    i = rnd.randrange(1, len(bw[k]))
+                    rep = rnd.choice(vowels if rnd.random() < 0.7 else letters)
+                    rep = rep.upper() if bw[k][i].isupper() and len(rep.upper()) == 1 else rep
+                    bw[k] = bw[k][:i] + rep + bw[k][i + 1:]
+                    base = " ".join(bw)
             b = cps(base)
             if set(b) & marks:
                 continue
@@ -867,5 +954,51 @@ def gen_registry_cases(rnd, ncases, pools, toks, length=30):
                 q = random_query(L["lang"], rnd, L["titles"], toks) if L["titles"] and rnd.random() < 0.8 else rnd.choice(["", " ", "a", "zz"])
                 c.search(1000 + i, q, tag="sa%d" % i)
                 c.op(op="r_search", id=i, q=cps(q))
+        cases.append(c)
+    return cases
+
+
+def gen_markup_cases(lang, rnd, titles, toks, ncases):
+    """C09 / C02: the places where the highlighter's arithmetic has corners - joined matches that end exactly at the
+    gap or just behind it, one-letter halves, gaps of one and two characters, titles with very many words,
+    characters that fold to two, and queries that match several words"""
+    cases = []
+    for k in range(ncases):
+        c = Case("C09", "markup", lang=lang)
+        sid = c.new_store(lang)
+        qs = []
+        rid = 1
+        for _t in range(rnd.randint(1, 3)):
+            t = rnd.choice(titles)
+            tok = toks.get((lang, t))
+            ws = [text(w) for w in words_of(tok)] if tok else []
+            ws = [w for w in ws if len(w) >= 2]
+            if len(ws) < 1:
+                continue
+            a = rnd.choice(ws)
+            b = rnd.choice(ws)
+            sep = rnd.choice([" ", "-", "  ", ", ", "'"])
+            title = a + sep + b
+            c.add(sid, rid, title, rnd.randint(0, 100))
+            rid += 1
+            x = rnd.choice(script_letters(lang))
+            qs += [a + x, a + b[:1], a + b[:2], a + b, a[:-1] + b, a + x + b[:2], a[:1] + sep + a[1:], a + " " + b[:1], b + " " + a, a]
+            # the same words split differently
+            cut = rnd.randint(1, len(a) - 1)
+            c.add(sid, rid, a[:cut] + sep + a[cut:], rnd.randint(0, 100))
+            rid += 1
+            qs += [a, a + x, a[:cut], a[:cut] + x]
+        if k % 3 == 0:
+            # a title with more than 64 words; only a late word is asked for
+            filler = [rnd.choice(titles).split() for _ in range(30)]
+            words = [w for f in filler for w in f][:rnd.randint(66, 90)]
+            late = rand_word(rnd, script_letters(lang), 6, 9)
+            pos = rnd.randint(64, len(words)) if len(words) >= 64 else len(words)
+            words.insert(pos, late)
+            c.add(sid, rid, " ".join(words), 5)
+            rid += 1
+            qs += [late, late[:4], late + " " + words[0]]
+        for q in qs:
+            c.search(sid, q)
         cases.append(c)
     return cases
